@@ -132,6 +132,8 @@ func c08ErrCode(err error) int64 {
 		return 11
 	case ptt.ErrInvalidParams:
 		return 12
+	case cmsys.ErrRecordNotFound:
+		return 13
 	}
 	return 19
 }
